@@ -187,11 +187,14 @@ def accessors(chk, P):
         chk.ob("C15.O2", "ConfigParser.tabulation.%s" % attr, r[0] == r[1] and r[0][0] == "ok", site=cls.lookup("tabulation").site(),
                found=r[1], expect=r[0], key="C15.O2|tabulation.%s" % attr)
     # --list-items: same items apart from the Variables block itself
-    fi = P.func("atsim.potentials.tools.potable._query_actions", "_list_items")
+    fi = P.func("atsim.potentials.tools.potable._query_actions", "action_list_items")
 
     def items(I, cp):
-        lst = I.run(fi, [cp])
-        return ListV([it for it in lst.items if not it.items[0].v.startswith("Variables:")], "list")
+        I.run(fi, [cp])
+        out = W.out_tree(I.stdout())
+        if not isinstance(out, SLit):
+            raise AnalysisError("--list-items output is not concrete: %r" % (out,))
+        return ListV([Const(ln) for ln in out.text.split("\n") if not ln.startswith("Variables:")], "list")
     r = both("_list_items", items)
     chk.ob("C15.O2", "--list-items (ignoring the Variables block)", r[0] == r[1] and r[0][0] == "ok", site=fi.site(), found=r[1], expect=r[0],
            key="C15.O2|list-items")
